@@ -95,6 +95,13 @@ def run_case(case, tier):
             twist["warn"] = sorted(x.unique_id for x in rl.rules if x.phase == first and x.unique_id in with_v)
         if r > 0.6:
             twist["skip"] = sorted(rnd.sample(range(1, 8), k=rnd.randint(1, 2)))
+        # (d) twist for the report of a --fix run: the earliest rule with violations becomes report-only (so an error survives the
+        # fix in an early phase) and up to 3 rules of later phases become warnings (analysed, not fixed, by the fix pass)
+        if with_v and rnd.random() < 0.5:
+            by_ph = sorted(((x.phase, x.unique_id) for x in rl.rules if x.unique_id in with_v))
+            first_ph, first_rule = by_ph[0]
+            later = [rid for ph, rid in by_ph if ph > first_ph]
+            twist["fixrep"] = {"nofix": [first_rule], "warn": sorted(rnd.sample(later, k=min(len(later), rnd.randint(1, 3)))) if later else []}
     concrete = {"text": new, "style": style, "conf": case.get("conf"), "pseed": case["pseed"], "twist": twist}
     conf2 = copy.deepcopy(conf) if conf else {}
     if twist["phase"] or twist["warn"]:
@@ -183,6 +190,8 @@ def run_case(case, tier):
     # ---- CLI cross-check for a sample
     if case["pseed"] % 5 == 0 or "twist" in case:
         _cli(new, style, conf2, allv, gv, res, fail, lab)
+    if twist.get("fixrep"):
+        _cli_fix_report(new, style, conf2, twist["fixrep"], skip, fail, lab)
     if len(phases_with_v) >= 2:
         res["nontrivial"].append(common.h(new, style, conf2, N))
     if not res["failures"] and len(phases_with_v) >= 2:
@@ -225,6 +234,62 @@ def _cli(text, style, conf, allv, gv, res, fail, lab):
         fail("cli_all_phases_report_differs_from_api", {"cli": len(out["ap"]), "api": len(a)})
     if out["gated"] != sorted(g, key=lambda t: (t[0], t[1], t[2])):
         fail("cli_gated_report_differs_from_model", {"cli": len(out["gated"]), "model": len(g)})
+
+
+def _cli_fix_report(text, style, conf2, fixrep, skip, fail, lab):
+    """(d) the report printed at the end of a --fix run is gated like any other report (self-consistency under the gating model; the
+    comparison with a fresh check of the written file is C08's subject)."""
+    conf3 = copy.deepcopy(conf2) if conf2 else {}
+    conf3.setdefault("rule", {})
+    for rid in fixrep["nofix"]:
+        conf3["rule"].setdefault(rid, {})["fixable"] = False
+    for rid in fixrep["warn"]:
+        conf3["rule"].setdefault(rid, {})["severity"] = "Warning"
+    try:
+        f, rl, c, cla = _mk(text.split("\n"), style, conf3)
+    except Exception:
+        lab["fixrep_config_rejected"] = 1
+        return
+    phase_of = {r.unique_id: r.phase for r in rl.rules}
+    is_err = {r.unique_id: r.severity.type == vsgapi.severity.error_type for r in rl.rules}
+    d = vsgapi.scratch_dir()
+    confs = vsgapi.write_conf_files([conf3])
+    fn = os.path.join(d, "c13fix_%d.vhd" % os.getpid())
+    with open(fn, "w") as fh:
+        fh.write(text + "\n")
+    js = fn + ".json"
+    args = ["-p", "1", "-f", fn, "--fix", "-c"] + confs + (["--style", style] if style else []) + ["-js", js]
+    code, so, se, exc = vsgapi.run_cli(args)
+    try:
+        if exc is not None or "Traceback" in (se or ""):
+            lab["cli_fix_crash_(C19)"] = 1
+            return
+        try:
+            j = json.load(open(js))["files"][0]["violations"]
+        except Exception:
+            lab["cli_fix_no_json"] = 1
+            return
+    finally:
+        for x in (js, fn):
+            try:
+                os.remove(x)
+            except OSError:
+                pass
+    got = sorted(((v["rule"], v["linenumber"], str(v["solution"])) for v in j), key=lambda t: (t[0], t[1], t[2]))
+    lab["fix_report_checks"] = 1
+    if any(r not in phase_of for r, _, _ in got):
+        lab["fixrep_unknown_rule"] = 1
+        return
+    # a gated report is closed under the gating model: nothing may lie beyond the first phase that has an error-severity entry,
+    # and nothing in a skipped phase
+    exp, stop = gating.gated(got, phase_of, is_err, skip)
+    if stop is not None:
+        lab["fix_report_has_residual_error"] = 1
+    if got != exp:
+        extra = [v for v in got if v not in exp]
+        fail("fix_report_goes_beyond_first_failing_phase", {"stop_phase": stop, "extra": extra[:3], "fixrep": fixrep}, extra[0][0])
+    elif stop is not None and fixrep["warn"]:
+        lab["fix_report_gated_with_later_warning_rules"] = 1
 
 
 def shrink(case, sig, tier, budget):
